@@ -1,8 +1,10 @@
 package main
 
 import (
+	"bytes"
 	"fmt"
 	"go/ast"
+	"go/printer"
 	"go/token"
 	"os"
 	"path/filepath"
@@ -27,8 +29,11 @@ import (
 //   - the two path arguments of `newIODelegate`, whether `defer d.Close()` follows it,
 //   - how `d.Commit()` relates to the `return nil` statements of the function,
 //
-// plus three literal facts of io.go: the body of `Commit`, the condition under which `Close`
-// removes the entry being written, and the condition under which a hit removes the entry.
+// plus literal facts of io.go: the body of `Commit`, the condition under which `Close`
+// removes the entry being written, the condition under which a hit removes the entry, the
+// statements of `(*ioDelegate).Write` (the tee: the cache first, its error returned before the
+// output is touched) and of the block of `TryCache` that creates the entry (what is done with
+// the error of `cache.CreateLevel`).
 //
 // Anything outside these shapes is refused.
 func genCli(repo string) (string, error) {
@@ -845,6 +850,31 @@ type cliIO struct {
 	closeRemoveCond string
 	hitRemoveCond   string
 	missArms        string
+	teeBody         []string // the statements of (*ioDelegate).Write
+	missBlock       []string // TryCache: the statements of the block entered when cache.Open failed
+}
+
+// cliStmtText: a statement printed by go/printer, on one line (statements of a block joined by "; ")
+func cliStmtText(fset *token.FileSet, n ast.Node) string {
+	var b bytes.Buffer
+	if err := printer.Fprint(&b, fset, n); err != nil {
+		return "<unprintable>"
+	}
+	var out string
+	for _, l := range strings.Split(b.String(), "\n") {
+		l = strings.Join(strings.Fields(l), " ")
+		switch {
+		case l == "":
+		case out == "" || strings.HasSuffix(out, "{") || strings.HasPrefix(l, "}"):
+			if out != "" {
+				out += " "
+			}
+			out += l
+		default:
+			out += "; " + l
+		}
+	}
+	return out
 }
 
 func method(src *source, recvType, name string) (*ast.FuncDecl, error) {
@@ -942,6 +972,40 @@ func cliIOFacts(path string) (*cliIO, error) {
 	})
 	if arms != 1 {
 		return nil, src.errAt(tc, "TryCache: exactly one assignment to d.cache expected, found %d", arms)
+	}
+
+	// Write (the tee), statement by statement
+	wr, err := method(src, "*ioDelegate", "Write")
+	if err != nil {
+		return nil, err
+	}
+	for _, st := range wr.Body.List {
+		out.teeBody = append(out.teeBody, cliStmtText(src.fset, st))
+	}
+	// TryCache: `f, err := cache.Open(…)` followed by `if err != nil { … cache.CreateLevel … }`
+	blocks := 0
+	for i, st := range tc.Body.List {
+		as, ok := st.(*ast.AssignStmt)
+		if !ok || len(as.Rhs) != 1 {
+			continue
+		}
+		if c, ok := as.Rhs[0].(*ast.CallExpr); !ok || exprString(c.Fun) != "cache.Open" {
+			continue
+		}
+		if i+1 >= len(tc.Body.List) {
+			return nil, src.errAt(tc, "TryCache: nothing follows cache.Open")
+		}
+		ifs, ok := tc.Body.List[i+1].(*ast.IfStmt)
+		if !ok || ifs.Init != nil || ifs.Else != nil {
+			return nil, src.errAt(tc, "TryCache: `if … { … }` expected after cache.Open")
+		}
+		for _, b := range ifs.Body.List {
+			out.missBlock = append(out.missBlock, cliStmtText(src.fset, b))
+		}
+		blocks++
+	}
+	if blocks != 1 {
+		return nil, src.errAt(tc, "TryCache: exactly one cache.Open expected, found %d", blocks)
 	}
 	return out, nil
 }
@@ -1106,6 +1170,8 @@ structure Command where
 	fmt.Fprintf(&b, "/-- io.go `(*ioDelegate).Close`: `if err := d.cache.Close(); <this> { os.Remove(d.cache.Name()) }` -/\ndef closeRemoveCond : String := %s\n\n", leanStr(io.closeRemoveCond))
 	fmt.Fprintf(&b, "/-- io.go `TryCache`, after replaying a hit: `if <this> { os.Remove(f.Name()) }` -/\ndef hitRemoveCond : String := %s\n\n", leanStr(io.hitRemoveCond))
 	fmt.Fprintf(&b, "/-- io.go `TryCache`, on a miss: the only assignment to `d.cache` -/\ndef missArms : String := %s\n\n", leanStr(io.missArms))
+	fmt.Fprintf(&b, "/-- io.go `(*ioDelegate).Write` (the tee), statement by statement -/\ndef teeBody : List String := %s\n\n", leanStrList(io.teeBody))
+	fmt.Fprintf(&b, "/-- io.go `TryCache`: the block entered when `cache.Open` failed, statement by statement -/\ndef missBlock : List String := %s\n\n", leanStrList(io.missBlock))
 	b.WriteString("end Gts.Gen.Cli\n")
 	return b.String()
 }
